@@ -52,7 +52,16 @@ func isBigIntStruct(t types.Type) bool {
 
 func isTime(t types.Type) bool {
 	n, ok := t.(*types.Named)
-	return ok && n.Obj().Pkg() != nil && n.Obj().Pkg().Path() == "time" && n.Obj().Name() == "Time"
+	if ok && n.Obj().Pkg() != nil && n.Obj().Pkg().Path() == "time" && n.Obj().Name() == "Time" {
+		return true
+	}
+	// a named type defined as time.Time (e.g. wire.int64Time) has the same representation
+	st, ok := t.Underlying().(*types.Struct)
+	if !ok || st.NumFields() != 3 {
+		return false
+	}
+	f0 := st.Field(0)
+	return f0.Name() == "wall" && f0.Pkg() != nil && f0.Pkg().Path() == "time" && st.Field(1).Name() == "ext" && st.Field(2).Name() == "loc"
 }
 
 func isHashArr(t types.Type) bool {
